@@ -11,6 +11,7 @@ from lv import core
 def main(argv):
     pid, tier, seed, k, n, budget, out = argv
     ctx = core.Ctx(pid, tier, int(seed), int(k), int(n), int(budget))
+    core.CASE_SALT[0] = (int(seed) * 1000003 + int(k) * 7919 + 1) * 0x9E3779B97F4A7C15 % (2 ** 64)
     core.setup_repo_imports()
     mod = importlib.import_module('lv.props.' + pid.lower())
     col = core.Collector()
